@@ -465,6 +465,13 @@ fn op_conv(case: &J) -> Result<J, String> {
     }))
 }
 
+fn take_log() -> String {
+    // `take` also disables the buffer: re-enable so later hook logs are captured, not printed
+    let s = output_buffer::take();
+    output_buffer::enable();
+    s
+}
+
 fn op_sim(case: &J, config: &Config) -> Result<J, String> {
     LazyLock::force(&REGISTER);
     let src = case["src"].as_str().ok_or("ERR case no src")?;
@@ -511,15 +518,24 @@ fn op_sim(case: &J, config: &Config) -> Result<J, String> {
     output_buffer::enable();
     let mut sim = Simulator::new(sim_ir, None);
     sim.init_components(0, top).map_err(|e| format!("ERR init_components {e}"))?;
-    let init_log = output_buffer::take();
+    let init_log = take_log();
 
-    let clk = sim.get_clock(case["clk"].as_str().unwrap_or("clk")).ok_or("ERR case clock port not found")?;
-    let clk2 = match case["clk2"].as_str() {
-        Some(c) => Some(sim.get_clock(c).ok_or("ERR case clk2 not found")?),
-        None => None,
+    // The top is a #[test] module (components may only be instantiated there): clock, reset and the
+    // driven variables are found by name among the top module's variables.
+    let find_id = |sim: &Simulator, name: &str| -> Option<veryl_analyzer::ir::VarId> {
+        let target = veryl_analyzer::ir::VarPath::new(veryl_parser::resource_table::insert_str(name));
+        sim.ir
+            .module_variables
+            .variables
+            .iter()
+            .find(|(_, v)| v.path == target)
+            .map(|(id, _)| *id)
     };
+    let clk_id = find_id(&sim, case["clk"].as_str().unwrap_or("clk")).ok_or("ERR case clock variable not found")?;
+    let clk = Event::Clock(clk_id);
+    let clk2: Option<Event> = None;
     let rst = match case["rst"].as_str() {
-        Some(r) => Some(sim.get_reset(r).ok_or("ERR case reset port not found")?),
+        Some(r) => Some(Event::Reset(find_id(&sim, r).ok_or("ERR case reset variable not found")?)),
         None => None,
     };
     let pairs = |k: &str| -> Vec<(String, usize)> {
@@ -537,10 +553,7 @@ fn op_sim(case: &J, config: &Config) -> Result<J, String> {
     let read_outs = |sim: &mut Simulator| -> Result<Vec<J>, String> {
         let mut row = vec![];
         for (n, _w) in &outs {
-            let v = match sim.get(n) {
-                Some(v) => v,
-                None => sim.get_var(n).ok_or(format!("ERR case output {n} not found"))?,
-            };
+            let v = sim.get_var(n).ok_or(format!("ERR case output {n} not found"))?;
             row.push(J::String(format!(
                 "{}/{}",
                 v.payload().to_str_radix(16),
@@ -564,7 +577,8 @@ fn op_sim(case: &J, config: &Config) -> Result<J, String> {
                 Some(ms) => hex(ms[i].as_str().unwrap()),
                 None => zero.clone(),
             };
-            sim.set(n, mk_value(&p, &m, *w));
+            let id = find_id(&sim, n).ok_or(format!("ERR case input variable {n} not found"))?;
+            sim.set_var_by_id(&id, mk_value(&p, &m, *w));
         }
         // values visible just before the edge (after the inputs were applied and comb settled)
         let pre = read_outs(&mut sim)?;
@@ -572,13 +586,13 @@ fn op_sim(case: &J, config: &Config) -> Result<J, String> {
         let ev = if which == 1 { clk2.as_ref().unwrap_or(&clk) } else { &clk };
         let r = cyc["r"].as_u64().unwrap_or(0);
         match (&rst, r) {
-            (Some(rs), 1) => sim.step_reset(ev, rs),
-            (Some(rs), 2) => {
-                // reset held by the caller across the edge, no assertion edge
+            (Some(rs), 1) | (Some(rs), 2) => {
+                // as TestbenchStatement::ResetAssert does: hold the net asserted, take one clock
+                // edge in reset (r=1: with the assertion edge, r=2: without), release
                 if let Some(id) = rs.var_id() {
                     sim.set_reset_level(&id, true);
                 }
-                sim.step_in_reset(ev, rs, false);
+                sim.step_in_reset(ev, rs, r == 1);
                 if let Some(id) = rs.var_id() {
                     sim.set_reset_level(&id, false);
                 }
@@ -586,7 +600,7 @@ fn op_sim(case: &J, config: &Config) -> Result<J, String> {
             _ => sim.step(ev),
         }
         let row = read_outs(&mut sim)?;
-        let log = output_buffer::take();
+        let log = take_log();
         for c in &calls {
             if c[0].as_u64() == Some(ci as u64) {
                 let inst = veryl_parser::resource_table::insert_str(c[1].as_str().unwrap());
@@ -607,7 +621,7 @@ fn op_sim(case: &J, config: &Config) -> Result<J, String> {
                     })
                     .unwrap_or_default();
                 let r = sim.call_component_method(inst, meth, &args);
-                let lg = output_buffer::take();
+                let lg = take_log();
                 call_results.push(match r {
                     Ok(hv) => {
                         let tb = host_value_to_value(&hv).map(|v| {
